@@ -314,7 +314,7 @@ impl Components {
                 .data
                 .iter()
                 .filter_map(|c| match c {
-                    Energy::Used(e) if e.id == id => Some(e.service),
+                    Energy::Used(e) if e.id == id && e.service.is_epb() => Some(e.service),
                     _ => None,
                 })
                 .collect::<HashSet<_>>();
